@@ -35,10 +35,38 @@ def h5_traffic(v):
                         reads.append(("attr", v.ev._index(n.slice, v.cfg.node(v.owner(n)), None), n))
                     except AnalysisError:
                         pass
-                elif isinstance(n.slice, ast.Constant) and isinstance(n.slice.value, str) and isinstance(n.value, ast.Name) \
-                        and (n.value.id.startswith("h5_") or n.value.id == "f"):
-                    reads.append(("item", v.term(n.slice), n))
+                elif isinstance(n.slice, ast.Constant) and isinstance(n.slice.value, str) and isinstance(n.value, ast.Name):
+                    try:
+                        bt = v.term(n.value, at=v.owner(n))
+                    except AnalysisError:
+                        continue
+                    if _is_h5(v, bt):
+                        reads.append(("item", v.term(n.slice), n))
     return writes, reads
+
+
+def _is_h5(v, t, depth=0):
+    """is the value an HDF5 file / group handle: a parameter annotated h5py.*, h5py.File(...), a created group or an item of one"""
+    if depth > 6:
+        return False
+    h = v.ctx.head_of(t)
+    if not h:
+        return False
+    if h[0] == "sym" and h[1].startswith("param:"):
+        pname = h[1][6:]
+        for a in v.f.node.args.posonlyargs + v.f.node.args.args + v.f.node.args.kwonlyargs:
+            if a.arg == pname and a.annotation is not None and "h5py" in ast.unparse(a.annotation):
+                return True
+        return False
+    if h[0] == "with":
+        return "h5py.File" in v.show(v.ctx.args_of(t)[0])[:40]
+    if h[0] == "call" and h[1] in (".create_group", "h5py.File"):
+        return True
+    if h[0] == "sub":
+        return _is_h5(v, v.ctx.args_of(t)[0], depth + 1)
+    if h[0] == "phi":
+        return any(_is_h5(v, x, depth + 1) for x in v.ctx.args_of(t))
+    return False
 
 
 def strs(v, ts):
@@ -321,7 +349,14 @@ def d5_legacy(chk, repo):
     for st in f.stmts():
         if isinstance(st, ast.If):
             ct = f.ev.term(st.test, at=st)
-            if f.eq(ct, f.spec("'ubermag-hdf5-file-version' not in f.attrs", at=st)):
+            hd = f.ctx.head_of(ct)
+            is_test = False
+            if hd == ("cmp", "notin"):
+                k_, obj = f.ctx.args_of(ct)
+                ho = f.ctx.head_of(obj)
+                is_test = is_str(f.ctx, k_, "ubermag-hdf5-file-version") and bool(ho) and ho[0] == "attr" and ho[1] == "attrs" \
+                    and _is_h5(f, f.ctx.args_of(obj)[0])
+            if is_test:
                 rets = [s for s in st.body if isinstance(s, ast.Return)]
                 if rets:
                     c = decode_call(f.ctx, f.ev.term(rets[0].value, at=rets[0]))
